@@ -14,7 +14,8 @@ TECHNIQUE = ('model-based stateful testing with generated eviction schedules: a 
              '_p_deactivate() of generated node subsets, and - for object keys - a sweep fired from inside '
              'the n-th key comparison of an operation, n enumerated for a set of operations); every result '
              'is compared with a reference model and after every call no cached object may be left sticky; '
-             'the C extension runs the in-comparison sweeps under ASan/UBSan')
+             'the C extension runs the in-comparison sweeps under ASan/UBSan; '
+             'a third of the cases make every call through the class (no activation of a ghost by attribute look-up); set algebra / multiunion / update / in-place operators with a second stored operand, live iterators stepped across sweeps, the truth value / length / ends of lazy sequences on a grid of all bound pairs of small stored trees, failing calls (byValue, update, union with unusable data)')
 RULE = ('a case is (configuration, base contents, history with sweeps).  Non-trivial: some operation '
         'started with at least one ghost among the container\'s nodes, or a sweep ran inside a key '
         'comparison.  Distinct = distinct case JSON (enumerated in-comparison points are distinct by n).')
